@@ -17,7 +17,9 @@ RULE = ("case = scope forest of <=5 scopes (sync/async blocks, sync/async/no com
         "forest shape x task placement with <=3 scopes + 6 random linearisations per shape with 4 + ~6500 sampled event sequences "
         "(a quarter from the degenerate stream: held scope objects entered late or never; ~1500 from the fault stream: tasks "
         "cancelled from outside while suspended in a body or blocked in an exit that waits for ctx.spawn members, async scopes "
-        "with a disposable whose cleanup raises and whose caller catches the error and goes on); thorough: every linearisation with <=4 "
+        "with a disposable whose cleanup raises and whose caller catches the error and goes on, async scopes whose disposable "
+        "raises in __aenter__ or waits there on a gate that is opened later or whose task is cancelled meanwhile, ctx.scope() "
+        "attempted in a thread without event loop); thorough: every linearisation with <=4 "
         "scopes, 80 random linearisations for each of the 1944 shape x placement combinations with 5 scopes, 80000 sampled "
         "sequences; non-trivial = >=2 scopes with "
         "callbacks, >=1 nesting edge, and some scope left before a scope nested in it was left or constructed; distinct = by case text")
@@ -86,7 +88,7 @@ def monitor(case: str, out: str) -> list[str]:
     for tok in out.split():
         if tok.startswith("D") and tok[1:].isdigit():
             desync = int(tok[1:])
-            fails.add("completion.no-observation:desync")
+            fails.add("completion.unobservable:desync")
     fired_at: dict[int, list[int]] = {}
     cb_obs: dict[int, tuple[str, str]] = {}
     final: dict[int, tuple[int, str, str]] = {}
@@ -176,6 +178,16 @@ def corpus():
         "0:o:a:s 0:o:d:s 0:x 0:o:s:a 0:x 0:x 0:e",
         "0:o:a:s 0:o:d:a 0:s 1:o:s:s 0:X +1 0:x 0:e",
         "0:o:d:s 0:c 1:o:d:a 0:x 1:x 1:e 0:e",
+        # failing enters: disposable raises in __aenter__ / task cancelled while the disposable is still entering
+        # (rolled back: the registered scope is left at once and must not block its parent); gate opened normally
+        "0:o:a:s 0:o:r:s 0:o:s:a 0:x 0:x 0:e",
+        "0:o:a:s 0:c 1:o:g:s 1:k 0:x 0:e",
+        "0:o:a:s 0:s 1:o:g:s 0:x 0:k",
+        "0:o:a:s 0:c 1:o:g:a +2 1:G 1:o:s:s +1 1:x 1:x 1:e 0:x 0:e",
+        "0:o:g:s 0:k",
+        # ctx.scope(...) attempted in a thread without event loop (copy of the context): RuntimeError, nothing registered
+        "0:o:a:s 0:o:s:s 0:T 0:x 0:T 0:x 0:T 0:e",
+        "0:o:s:a 0:T 0:c 1:T 0:x 1:o:s:s 1:x 1:e 0:e",
         # held scope object never entered (known finding)
         "0:o:a:s 0:m:s:s 0:x 0:e",
         "0:o:a:s 0:o:s:s 0:m:a:s 0:x 0:x 0:e",
@@ -366,9 +378,12 @@ def classify(case: str, out: str):
         yield "shape:group-member"
     if any(s.disp for s in spec.scopes):
         yield "shape:failing-cleanup"
+    for e in p[1]:
+        if e.kind == "open" and e.enter_mode:
+            yield f"shape:enter-{'raises' if e.enter_mode == 'r' else 'gated'}"
 
 
-ALPHA = ["o", "x", "X", "s", "c", "e", "m", "n", "+", "k"]
+ALPHA = ["o", "x", "X", "s", "c", "e", "m", "n", "+", "k", "G", "T"]
 
 
 def mutate(rng, case: str) -> str:
@@ -379,7 +394,7 @@ def mutate(rng, case: str) -> str:
         t = rng.randrange(ntasks)
         op = rng.choice(ALPHA)
         if op in ("o", "m"):
-            new = f"{t}:{op}:{rng.choice(KINDS + ['d'])}:{rng.choice(CBS)}"
+            new = f"{t}:{op}:{rng.choice(KINDS + (['d', 'r', 'g'] if op == 'o' else ['d']))}:{rng.choice(CBS)}"
         elif op == "+":
             new = f"+{rng.randint(1, 3)}"
         else:
